@@ -69,7 +69,14 @@ def main():
         meta["ran"]["demo_with_change_output"] = r.stdout[-600:]
         confirmed = meta["ran"]["demo_on_pristine_exit"] == 0 and meta["ran"]["demo_with_change_exit"] != 0 and "160 passed" in meta["ran"]["tests_with_change"]
         meta["confirmed"] = confirmed
-        props = [l for l in sh("cd %s && /venv/bin/python run.py --list" % ROOT).stdout.split()] if args.props == "all" else args.props.split(",")
+        if args.props == "all":
+            props = sh("cd %s && /venv/bin/python run.py --list" % ROOT).stdout.split()
+        elif args.props == "prev":  # the property's own check plus every check that caught this seed before
+            props = [args.prop]
+            if os.path.exists(os.path.join(dest, "meta.json")):
+                props += [p for p in json.load(open(os.path.join(dest, "meta.json"))).get("caught_by", []) if p != args.prop]
+        else:
+            props = args.props.split(",")
         checks = {}
         for prop in props:
             t0 = time.time()
@@ -80,6 +87,7 @@ def main():
                 checks[prop]["output"] = r.stdout[-800:]
         meta["checks_%s" % args.tier] = checks
         meta["caught_by"] = sorted(p for p, c in checks.items() if c["exit"] == 1)
+        meta["checks_run"] = sorted(checks)
     finally:
         sh("git -C /repo worktree remove --force %s" % wt)
         shutil.rmtree(wt, ignore_errors=True)
